@@ -2270,14 +2270,14 @@ func (vm *Thread) growValueStack() {
 
 	for i := range vm.callFrames {
 		cf := &vm.callFrames[i]
-		offset := uintptr(vm.stackOffsetFromToRaw(oldStackPtr, cf.fp))
+		offset := uintptr(vm.stackOffsetFromToRaw(cf.fp, oldStackPtr))
 		cf.fp = vm.stackAddRaw(newStackPtr, offset)
 		for _, upvalue := range cf.upvalues {
 			if upvalue.IsClosed() {
 				continue
 			}
 
-			offset := vm.stackOffsetFromTo(&vm.stack[0], upvalue.slot)
+			offset := vm.stackOffsetFromTo(upvalue.slot, &vm.stack[0])
 			upvalue.slot = vm.stackAdd(&newStack[0], offset)
 		}
 	}
@@ -2287,7 +2287,17 @@ func (vm *Thread) growValueStack() {
 			continue
 		}
 
-		offset := vm.stackOffsetFromTo(&vm.stack[0], upvalue.slot)
+		offset := vm.stackOffsetFromTo(upvalue.slot, &vm.stack[0])
+		upvalue.slot = vm.stackAdd(&newStack[0], offset)
+	}
+
+	oldStackEnd := oldStackPtr + uintptr(len(vm.stack))*value.ValueSize
+	for upvalue := vm.openUpvalueHead; upvalue != nil; upvalue = upvalue.next {
+		slotPtr := uintptr(unsafe.Pointer(upvalue.slot))
+		if upvalue.IsClosed() || slotPtr < oldStackPtr || slotPtr >= oldStackEnd {
+			continue
+		}
+		offset := vm.stackOffsetFromTo(upvalue.slot, &vm.stack[0])
 		upvalue.slot = vm.stackAdd(&newStack[0], offset)
 	}
 
